@@ -20,35 +20,97 @@ def run(R):
         b = tonic.body(re.compile(r'service::interceptor::InterceptedService<S, I> as tower_service::Service<http::Request<ReqBody>>>::call$'))
         R.saw(b)
         ib, it = b.call1(pat='Request::<T>::into_http')
-        for idx, getter in ((1, 'uri'), (2, 'method')):
+        # provenance of the request line: a getter on the incoming request (cloned where it is not Copy), or the field of the incoming
+        # request's Parts (moved out / mem::take'n)
+        is_in = lambda t_: term_contains(t_, lambda x: x and x[0] == 'arg' and x[1] == 2)
+
+        def line_from_incoming(a, getter):
+            a0 = strip_refs(a)
+            for _ in range(3):
+                if is_call(a0) and a0[3] in ('clone', 'take', 'replace', 'to_owned') and a0[2]:
+                    a0 = strip_refs(a0[2][0])
+            if is_call(a0, name=getter) and 'http::Request' in a0[1] and is_in(a0):
+                return 'getter'
+            if a0 and a0[0] == 'field' and a0[2] == getter:
+                p0 = strip_refs(a0[1])
+                if p0 and p0[0] == 'field' and p0[2] == 0 and is_call(strip_refs(p0[1]), pat='http::Request', name='into_parts') and is_in(p0):
+                    return 'parts-field'
+            return None
+        forms = {}
+        for idx, getter in ((1, 'uri'), (2, 'method'), (3, 'version')):
             a = b.origin(it['args'][idx])
-            okv = is_call(strip_refs(a), name='clone') and term_contains(a, lambda x: is_call(x, name=getter) and 'http::Request' in x[1]) and term_contains(a, lambda x: x and x[0] == 'arg' and x[1] == 2)
-            R.check(okv, 'C12.R1', '%s-from-incoming' % getter, site(b, ib), '%s argument = %s' % (getter, show(a)[:120]))
-        a = b.origin(it['args'][3])
-        R.check(is_call(strip_refs(a), name='version') and term_contains(a, lambda x: x and x[0] == 'arg' and x[1] == 2), 'C12.R1', 'version-from-incoming', site(b, ib), 'version argument = %s' % show(a)[:120])
+            forms[getter] = line_from_incoming(a, getter)
+            R.check(forms[getter] is not None, 'C12.R1', '%s-from-incoming' % getter, site(b, ib), '%s argument = %s' % (getter, show(a)[:120]))
         sz = strip_refs(b.origin(it['args'][4]))
         R.check(sz[0] == 'agg' and sz[1].get('variant') == 'No', 'C12.R1', 'sanitize-no', site(b, ib), 'sanitize argument = %s (reserved headers of the original request must survive)' % show(sz))
-        # the three getters are evaluated before the request is consumed by from_http
-        fh = b.calls(pat='Request::<T>::from_http')
-        R.check(len(fh) == 1, 'C12.R1', 'from_http-once', site(b), 'Request::from_http sites: %d' % len(fh))
+        # getters are evaluated before the request is consumed (a Parts field is owned: nothing to order)
+        consume = b.calls(pat='Request::<T>::from_http', name='from_http') + [(bb, t) for bb, t in b.calls(pat='http::Request', name='into_parts') if is_in(b.origin(t['args'][0]))]
+        R.check(len(consume) == 1, 'C12.R1', 'from_http-once', site(b), 'sites consuming the incoming request (Request::from_http / http::Request::into_parts): %d' % len(consume))
         for nm in ('uri', 'method', 'version'):
+            if forms.get(nm) == 'parts-field':
+                R.ok('C12.R1', '%s-captured-before-consume' % nm, site(b, ib), '%s is taken out of the incoming request\'s own Parts' % nm)
+                continue
             gs = [(bb, t) for bb, t in b.calls(name=nm) if 'http::Request' in (t.get('fn') or '')]
-            R.check(len(gs) == 1 and fh and b.dominates(gs[0][0], fh[0][0]), 'C12.R1', '%s-captured-before-consume' % nm, site(b, gs[0][0]) if gs else site(b), '%s() read before the request is consumed' % nm)
-        # request rebuilt from interceptor's metadata/extensions + original message
+            R.check(len(gs) == 1 and consume and b.dominates(gs[0][0], consume[0][0]), 'C12.R1', '%s-captured-before-consume' % nm, site(b, gs[0][0]) if gs else site(b), '%s() read before the request is consumed' % nm)
+
+        # component provenance of a tonic::Request-valued term: where its metadata / extensions / message come from
+        def comp(t_, which, depth=0):
+            t_ = strip_refs(t_)
+            if depth > 8 or not t_:
+                return None
+            if is_call(t_, pat='Request::<T>::from_parts') and len(t_[2]) == 3:
+                return leaf(t_[2][('metadata', 'extensions', 'message').index(which)], which, depth + 1)
+            if is_call(t_, pat='Request::<T>::from_http', name='from_http'):
+                return {'metadata': 'in-headers', 'extensions': 'in-extensions', 'message': 'in-body'}[which] if arg_root(strip_refs(t_[2][0])) == 2 else None
+            if is_call(t_, pat='Request::<T>::from_http_parts') and len(t_[2]) == 2:
+                if which == 'message':
+                    return leaf(t_[2][1], which, depth + 1)
+                p0 = strip_refs(t_[2][0])
+                okp = p0 and p0[0] == 'field' and p0[2] == 0 and is_call(strip_refs(p0[1]), pat='http::Request', name='into_parts') and arg_root(strip_refs(strip_refs(p0[1])[2][0])) == 2
+                return {'metadata': 'in-headers', 'extensions': 'in-extensions'}[which] if okp else None
+            if is_call(t_, pat='Request::<T>::map') and len(t_[2]) == 2:
+                if which != 'message':
+                    return comp(t_[2][0], which, depth + 1)
+                cl = strip_refs(t_[2][1])
+                if cl and cl[0] == 'agg' and cl[1].get('def'):
+                    cb_ = tonic.body(cl[1]['def'])
+                    rt_ = mirlib.returned_terms(cb_)
+                    if len(rt_) == 1:
+                        r0 = strip_refs(rt_[0][1])
+                        # the closure returns one of its captures: what the builder stored there
+                        if r0 and r0[0] == 'field' and strip_refs(r0[1]) in (('env',), ('deref', ('env',))) and r0[2] in (cl[1].get('fields') or []):
+                            return leaf(cl[2][cl[1]['fields'].index(r0[2])], which, depth + 1)
+                return None
+            if t_[0] == 'variant' and t_[2] == 'Ok':
+                return comp(t_[1], which, depth + 1)
+            if t_[0] == 'field' and t_[2] in (0, '0') and strip_refs(t_[1])[0] == 'variant':
+                return comp(t_[1], which, depth + 1)
+            if is_call(t_, name='call') and 'Interceptor' in t_[1]:
+                return 'interceptor-out' if which != 'message' else 'unit'
+            return None
+
+        def leaf(t_, which, depth):
+            t_ = strip_refs(t_)
+            if t_ and t_[0] in ('agg', 'const') and (t_[0] == 'const' or t_[1].get('kind') == 'tuple') and not (t_[2] if t_[0] == 'agg' else None):
+                return 'unit'
+            if t_ and t_[0] == 'field' and isinstance(t_[2], int):
+                src = strip_refs(t_[1])
+                if is_call(src, pat='tonic::request::Request', name='into_parts') or is_call(src, pat='Request::<T>::into_parts') and 'http::' not in src[1]:
+                    return comp(src[2][0], ('metadata', 'extensions', 'message')[t_[2]], depth + 1) if t_[2] < 3 else None
+                if is_call(src, pat='http::Request', name='into_parts') and arg_root(strip_refs(src[2][0])) == 2:
+                    return 'in-body' if t_[2] == 1 else None
+            return None
         req = strip_refs(b.origin(it['args'][0]))
-        okr = is_call(req, pat='Request::<T>::from_parts')
-        R.check(okr, 'C12.R1', 'rebuilt-from_parts', site(b, ib), 'into_http receiver = %s' % show(req)[:120])
-        if okr:
-            md, ex, msg = req[2][0], req[2][1], req[2][2]
-            from_int = lambda t: term_contains(t, lambda x: is_call(x, name='call') and 'Interceptor' in x[1])
-            R.check(from_int(md) and term_contains(md, lambda x: x and x[0] == 'variant' and x[2] == 'Ok'), 'C12.R1', 'metadata-from-interceptor', site(b, ib), 'metadata = %s' % show(md)[:120])
-            R.check(from_int(ex), 'C12.R1', 'extensions-from-interceptor', site(b, ib), 'extensions = %s' % show(ex)[:120])
-            R.check(not from_int(msg) and term_contains(msg, lambda x: is_call(x, pat='Request::<T>::from_http')) and term_contains(msg, lambda x: is_call(x, name='into_parts')), 'C12.R1', 'message-is-original-body', site(b, ib), 'message = %s' % show(msg)[:140])
+        got = {w: comp(req, w) for w in ('metadata', 'extensions', 'message')}
+        R.check(all(got.values()), 'C12.R1', 'rebuilt-from_parts', site(b, ib), 'into_http receiver = %s: components %r' % (show(req)[:120], got))
+        R.eq(got['metadata'], 'interceptor-out', 'C12.R1', 'metadata-from-interceptor', site(b, ib), 'metadata of the forwarded request')
+        R.eq(got['extensions'], 'interceptor-out', 'C12.R1', 'extensions-from-interceptor', site(b, ib), 'extensions of the forwarded request')
+        R.eq(got['message'], 'in-body', 'C12.R1', 'message-is-original-body', site(b, ib), 'message of the forwarded request')
         # what the interceptor is given: metadata + extensions of the incoming request, unit body
         cb, ct = b.call1(pat='Interceptor::call')
         given = strip_refs(b.origin(ct['args'][1]))
-        okg = is_call(given, pat='Request::<T>::from_parts') and strip_refs(given[2][2])[0] in ('agg', 'const') and term_contains(given[2][0], lambda x: is_call(x, name='into_parts'))
-        R.check(okg, 'C12.R1', 'interceptor-sees-unit-body', site(b, cb), 'interceptor argument = %s' % show(given)[:140])
+        gv = {w: comp(given, w) for w in ('metadata', 'extensions', 'message')}
+        R.eq(gv, {'metadata': 'in-headers', 'extensions': 'in-extensions', 'message': 'unit'}, 'C12.R1', 'interceptor-sees-unit-body', site(b, cb), 'interceptor argument = %s' % show(given)[:140])
         sg = [v for k, v in tonic.sigs.items() if k.endswith('as service::interceptor::Interceptor>::call')]
         R.check(len(sg) >= 1 and all('Request<()>' in x['inputs'][1] for x in sg), 'C12.R1', 'interceptor-signature', '', 'Interceptor::call inputs: %r' % (sg[0]['inputs'] if sg else None))
 
